@@ -51,7 +51,7 @@ def marked_at_bar_monitor(clause, acct):
         rp = replay_of(tr)
         seen = False
         for kind, e in tr.events:
-            if kind != "TRADE" or e["cal"].hour != 15 or not e.get("accounts"):
+            if kind != "TRADE" or (e["cal"].hour, e["cal"].minute) != (15, 0) or not e.get("accounts"):
                 continue
             a = e["accounts"].get(acct)
             if a is None:
